@@ -383,6 +383,13 @@ def check_whitespace(ctx, prog, rule='R7.3'):
             once, twice = rets([ts.P(a), ws] + tail), rets([ts.P(a), ws, ws] + tail)
             if sorted(map(fmt, once)) != sorted(map(fmt, twice)) and len(bad) < 5:
                 bad.append('`%s %s` -> %s but with two separators -> %s' % (ts.psym[a], 'x' if b == 'Literal' else (ts.psym[b] if b else ''), [fmt(r)[:70] for r in once][:2], [fmt(r)[:70] for r in twice][:2]))
+    # a separator between an operator character and a word changes nothing (they never combine): `-x` and `- x` are the same tokens
+    for a in ts.op_kinds:
+        n += 1
+        tight = {kinds_of(r) for r in rets([ts.P(a), ts.P('Literal', 'w')])}
+        spaced = {kinds_of(r) for r in rets([ts.P(a), ws, ts.P('Literal', 'w')])}
+        if tight != spaced and len(bad) < 5:
+            bad.append('`%sw` -> %s but `%s w` -> %s' % (ts.psym[a], sorted(map(str, tight))[:3], ts.psym[a], sorted(map(str, spaced))[:3]))
     # two words separated by whitespace stay two tokens
     two = {kinds_of(r) for r in rets([ts.P('Literal', 'w'), ws, ts.P('Literal', 'x')])}
     one = {kinds_of(r) for r in rets([ts.P('Literal', 'w')])}
